@@ -68,6 +68,9 @@ class NamespaceMapper(MutableMapping[str, str]):
 
     _arguments = NsMapperArguments
     _xmlns_getter: Optional[Callable[[ElementType], XmlnsType]]
+
+    xmlns_root_level = 1
+    """Root xmlns declarations of decoded data are usually at level 0 or 1."""
     _xmlns_contexts: list[NamespaceMapperContext]
 
     def __init__(self, namespaces: Optional[NsmapType] = None,
@@ -168,7 +171,7 @@ class NamespaceMapper(MutableMapping[str, str]):
         xmlns: XmlnsType
         namespaces = get_namespace_map(namespaces)
         for obj, level in iter_decoded_data(self.source):
-            if level <= 1:  # root xmlns declarations are usually at level 0 or 1
+            if level <= self.xmlns_root_level:  # root xmlns declarations level
                 if xmlns := self.get_xmlns_from_data(obj):
                     update_namespaces(namespaces, xmlns, True)
             elif root_only:
